@@ -13,6 +13,7 @@ import (
 	"sort"
 	"strings"
 	"syscall"
+	"time"
 
 	"pault.ag/go/debian/control"
 )
@@ -190,6 +191,13 @@ func execUpload(vec J, out *Writer) {
 			os.Mkdir(pathOfListed(at-1), 0755)
 		case "dstdir":
 			os.MkdirAll(filepath.Join(dst, bases[at-1].(string), "occupied"), 0755)
+		case "stale":
+			// not a failure: an older upload left a file of the same name and length, with other bytes and a newer mtime
+			stale := bytes.ToUpper(contentOf(fmt.Sprintf("f%d", at)))
+			p := filepath.Join(dst, bases[at-1].(string))
+			os.WriteFile(p, stale, 0644)
+			future := time.Now().Add(48 * time.Hour)
+			os.Chtimes(p, future, future)
 		}
 	}
 	// the control file
@@ -265,6 +273,11 @@ func execUpload(vec J, out *Writer) {
 			os.Remove(ctlPath)
 		case "dstdir":
 			os.MkdirAll(filepath.Join(dst, ctlName, "occupied"), 0755)
+		case "stale":
+			p := filepath.Join(dst, ctlName)
+			os.WriteFile(p, bytes.ToUpper(text.Bytes()), 0644)
+			future := time.Now().Add(48 * time.Hour)
+			os.Chtimes(p, future, future)
 		}
 	}
 	calls := 0
